@@ -296,7 +296,7 @@ pub fn check_payload(payload: &[u8], reported_hash: &[u8], pp: &PP, o: &mut Outc
                 buf.extend_from_slice(&payload[d.start..d.end]);
             }
             if pp.cost_models & (1 << version) != 0 {
-                buf.extend(language_views(version, &cost_model(version)));
+                buf.extend(language_views(version, &crate::common::pipeline::cost_model_variant(version, pp.cost_variant)));
                 if *h != txdecode::blake2b256(&buf) {
                     viol(
                         o,
@@ -373,9 +373,16 @@ pub fn check_payload(payload: &[u8], reported_hash: &[u8], pp: &PP, o: &mut Outc
 }
 
 fn judge(mask: u32, network: u8, o: &mut Outcome) {
-    let pp = PP { network, ..PP::default() };
+    // the two networks come with different cost models: one process compiles under both configurations
+    let pp = PP { network, cost_variant: network, ..PP::default() };
     let detail = json!({"features": FEATURES.iter().filter(|f| has(mask, f)).collect::<Vec<_>>(), "network": network});
     let tx = build(mask, network, 0);
+    // history of the process: the same template was compiled before by an instance configured with the other cost
+    // models (nothing a compiler computes from its configuration may be remembered outside the instance)
+    if std::env::var("VERIF_C10_NO_WARMUP").is_err() {
+        let mut other = compiler(&PP { cost_variant: 1 - network.min(1), ..pp.clone() });
+        let _ = panics::catch(|| other.compile(&AnyTir::V1Beta0(tx.clone())));
+    }
     let mut c1 = compiler(&pp);
     let r1 = panics::catch(|| c1.compile(&AnyTir::V1Beta0(tx.clone())));
     let first = match r1 {
